@@ -34,6 +34,7 @@ def run(tier, seed, only=None):
            E.find_updated_attributes, E._update_dbvals_, A.__get__, A.__set__, core.EntityMeta._set_rbits, core.EntityMeta._fetch_objects,
            core.EntityMeta._find_in_db_, E._db_set_, core.SessionCache.flush, core.Database._exec_sql, core.Database._ast2sql,
            core.DBSessionContextManager._commit_or_rollback, dp.Converter, dp.RealConverter)
+    os.environ.pop('C20_MUTANT', None)                            # canary hook (development only) is never active here
     T = 150 if tier == 'quick' else 900
     if tier == 'thorough': os.environ['C20_FULL'] = '1'          # read by checks/h_c20.py in the worker processes
     from checks import h_c20
@@ -45,8 +46,8 @@ def run(tier, seed, only=None):
                  'bits w_a,w_f,w_x,w_v for parallelism)' + ('' if tier == 'thorough' else '; quick tier main harnesses: v not read'),
         'values': 'loaded / assigned ints: any 32-bit value; current row ints: unbounded, NULL flags symbolic, row may be deleted; '
                   'reference keys concrete (7 loaded, 8 assigned, current symbolic); floats fixed except in upd_float',
-        'row shapes': ('main harnesses: n loaded NULL or not' if tier == 'thorough' else 'main harnesses: n loaded NULL') +
-                      ', g loaded non-NULL, non-NULL assignments; all NULL shapes of n and g in upd_nulls over the attributes n, g',
+        'row shapes': ('main harnesses: n and g loaded NULL or not' if tier == 'thorough' else 'main harnesses: n loaded NULL, g loaded non-NULL') +
+                      ', non-NULL assignments; all NULL shapes of n and g in upd_nulls over the attributes n, g',
         'session modes': ['optimistic (main)', 'get_for_update in optimistic / non-optimistic session (a,n,g read; a,x,g written)',
                           'db_session(optimistic=False)', 'PostgreSQL provider + builder, pyformat parameters (a,n,g)'],
         'tracking kernel': 'arbitrary masks in [0,64) x attribute x {descriptor read, assignment, query read}',
